@@ -261,9 +261,10 @@ theorem adjustSlot_spec {l : List Nat} (c : Ctx) (d : Int) (so : Option Nat) (hl
 /-- `JO` depends on the context only through its segment and high-water mark -/
 theorem JO.congr {c c' : Ctx} {l : List Nat} {so : Option Nat} (h : JO c l so) (e1 : c'.seg = c.seg) (e2 : c'.highwater = c.highwater) :
     JO c' l so := JO.mk' (by rw [e1]; exact h.linked) (by rw [e1]; exact h.clean) (by rw [e1]; exact h.isok) (by rw [e2]; exact h.hw)
+      (by rw [e1]; exact h.alloc)
 
 theorem JO.cursor {c : Ctx} {l : List Nat} {so so' : Option Nat} (h : JO c l so) (hi : IsOK c.seg l so') : JO c l so' :=
-  JO.mk' h.linked h.clean hi h.hw
+  JO.mk' h.linked h.clean hi h.hw h.alloc
 
 /-- **`findNDoRule` keeps the stream.** From a well-formed stream with the cursor on it, one step of the engine – matching,
 the constraint tests, the rule's action, its garbage collection and `adjustSlot` – ends with a well-formed stream, the
@@ -295,7 +296,7 @@ theorem findNDoRule_spec (p : PassT) (c : Ctx) (slot : Nat) {l : List Nat} (h : 
           · cases e
           · rename_i ret status slotOut c2 hact
             have hcell : IsOK c1.seg l (c1.smap.getD ((c1.context : Int) + 1).toNat none) := by rw [f1]; exact f3 _
-            obtain ⟨l2, j2⟩ := doAction_cursor (JO.linked h1) (JO.clean h1) (JO.hw h1) hcell hact
+            obtain ⟨l2, j2⟩ := doAction_cursor (JO.linked h1) (JO.clean h1) (JO.hw h1) hcell (JO.alloc h1) hact
             split at e
             · cases e; exact ⟨l2, JO.cursor j2 (.inl rfl)⟩
             · obtain ⟨a1, a2, a3⟩ := adjustSlot_spec c2 ret slotOut (JO.linked j2) (JO.isok j2)
@@ -310,6 +311,7 @@ theorem findNDoRule_spec (p : PassT) (c : Ctx) (slot : Nat) {l : List Nat} (h : 
 theorem restartAt_JO {c : Ctx} {l : List Nat} {so : Option Nat} {s : Nat} (h : JO c l so) (hs : IsOK c.seg l (some s)) :
     JO (c.restartAt s) l (some s) :=
   JO.mk' (show Linked c.seg l from JO.linked h) (show Clean c.seg l from JO.clean h) hs (fun x hx => cur_next_mem (JO.linked h) hs x hx)
+    (show Alloc c.seg l from JO.alloc h)
 
 /-- **the rule loop keeps the stream**, whatever the rules, the loop counter and the fuel -/
 theorem ruleLoop_spec (p : PassT) : ∀ (fuel : Nat) (c : Ctx) (s : Nat) (lc : Int) (it : Nat) {l : List Nat}, JO c l (some s) →
@@ -360,18 +362,18 @@ theorem noteLoop_highwater (c : Ctx) (a b : Nat) : (noteLoop c a b).highwater = 
   unfold noteLoop; simp only []; split <;> rfl
 
 /-- a segment whose stream is a well-formed doubly linked list -/
-def WF (s : Seg) : Prop := ∃ l, Linked s l ∧ Clean s l
+def WF (s : Seg) : Prop := ∃ l, Linked s l ∧ Clean s l ∧ Alloc s l
 
 /-- **a pass keeps the stream** -/
 theorem runPass_spec (p : PassT) (c : Ctx) (fuel : Nat) (h : WF c.seg) {c' : Ctx} (e : runPass p c fuel = .ok (some c')) :
     WF c'.seg := by
-  obtain ⟨l, hl, hc⟩ := h
+  obtain ⟨l, hl, hc, hal⟩ := h
   unfold runPass at e
   split at e
-  · cases e; exact ⟨l, hl, hc⟩
+  · cases e; exact ⟨l, hl, hc, hal⟩
   · rename_i s0 hs0
     split at e
-    · cases e; exact ⟨l, hl, hc⟩
+    · cases e; exact ⟨l, hl, hc, hal⟩
     · simp only [] at e
       split at e
       · cases e
@@ -380,9 +382,9 @@ theorem runPass_spec (p : PassT) (c : Ctx) (fuel : Nat) (h : WF c.seg) {c' : Ctx
         cases e
         have hs0l : s0 ∈ l := head?_mem (by rw [← hl.first]; exact hs0)
         have j0 : JO (c.restartAt s0) l (some s0) :=
-          JO.mk' hl hc (isok_of_mem hs0l) (fun x hx => next_mem hl hs0l x hx)
+          JO.mk' hl hc (isok_of_mem hs0l) (fun x hx => next_mem hl hs0l x hx) hal
         obtain ⟨l', j'⟩ := ruleLoop_spec p fuel _ s0 _ 0 j0 hr
-        exact ⟨l', by rw [noteLoop_seg]; exact JO.linked j', by rw [noteLoop_seg]; exact JO.clean j'⟩
+        exact ⟨l', by rw [noteLoop_seg]; exact JO.linked j', by rw [noteLoop_seg]; exact JO.clean j', by rw [noteLoop_seg]; exact JO.alloc j'⟩
 
 /-- **a run of passes keeps the stream** -/
 theorem runRange_spec (passes : Array PassT) (c : Ctx) (lo hi fuel : Nat) (h : WF c.seg) {c' : Ctx}
